@@ -4,10 +4,12 @@
 property's own quick check plus C01 (and extra checks given in EXTRA) against a scratch worktree."""
 import json, os, re, shutil, subprocess, sys
 EXTRA = {"C08": ["C20"], "C09": ["C08"], "C15": ["C06"], "C17": ["C08"], "C20": ["C08"], "C05": ["C14"], "C06": ["C08"], "C19": []}
-ids = sys.argv[1:] or sorted(os.listdir("/tmp/mut-out"))
+SRC = os.environ.get("MUTOUT", "/tmp/mut-out")
+TAG = os.environ.get("MUTTAG", "")
+ids = sys.argv[1:] or sorted(os.listdir(SRC))
 for pid in ids:
-    for m in sorted(os.listdir(f"/tmp/mut-out/{pid}")):
-        d = f"/tmp/mut-out/{pid}/{m}"
+    for m in sorted(os.listdir(f"{SRC}/{pid}")):
+        d = f"{SRC}/{pid}/{m}"
         if not os.path.exists(d + "/patch.diff"):
             continue
         out = subprocess.run(["/verif/tools/mutant.sh", "verify", d], capture_output=True, text=True).stdout
@@ -21,7 +23,7 @@ for pid in ids:
             mm = re.match(r"CHECK \S+ (C\d\d) rc=(\d+) (\d+) violations", l)
             if mm:
                 res[mm.group(1)] = {"exit": int(mm.group(2)), "violation_lines": int(mm.group(3))}
-        dst = f"/verif/seeded/{pid}-{m}"
+        dst = f"/verif/seeded/{pid}-{TAG}{m}"
         os.makedirs(dst, exist_ok=True)
         for f in ("patch.diff", "demo_test.go", "notes.md"):
             if os.path.exists(d + "/" + f):
